@@ -110,7 +110,11 @@ func (p *pkg) apStmtOrder(fn string, calls []string, lhs []string) string {
 				t := exprString(l)
 				for _, w := range lhs {
 					if t == w && i < len(x.Rhs) {
-						out = append(out, t+" = "+exprString(x.Rhs[i]))
+						op := " = "
+						if tok := x.Tok.String(); tok != "=" && tok != ":=" {
+							op = " " + tok + " "
+						}
+						out = append(out, t+op+exprString(x.Rhs[i]))
 					}
 				}
 			}
@@ -234,8 +238,10 @@ func extractApplier(repo string) {
 	f["applier.WALEntryToProto.seq"] = r.apKvField("WALEntryToProto", "SequenceNumber")
 	// ---- primary: selection and sender rules
 	f["applier.primary.limit"] = one(r.apConstAssign("Primary.getWALEntriesFromSequence", "maxEntriesToReturn"), "maxEntriesToReturn")
+	f["applier.primary.bytes"] = one(r.apLocalConst("Primary.getWALEntriesFromSequence", "maxBytesToReturn"), "maxBytesToReturn")
 	f["applier.primary.select.conds"] = r.apCondsMatching("Primary.getWALEntriesFromSequence", "currentSeq", "maxEntriesToReturn")
-	f["applier.primary.select.order"] = r.apStmtOrder("Primary.getWALEntriesFromSequence", []string{"p.wal.GetNextSequence", "p.wal.GetEntriesFrom"}, []string{"allEntries", "currentSeq"})
+	f["applier.primary.select.order"] = r.apStmtOrder("Primary.getWALEntriesFromSequence", []string{"p.wal.GetNextSequence", "p.wal.GetEntriesFrom"}, []string{"allEntries", "currentSeq", "totalBytes"})
+	f["applier.primary.select.cap"] = r.apCondsMatching("Primary.getWALEntriesFromSequence", "maxBytesToReturn") + " ; range " + r.apRangeOver("Primary.getWALEntriesFromSequence", "totalBytes")
 	f["applier.primary.from.initial"] = r.apCallArgText("Primary.sendInitialEntries", "p.getWALEntriesFromSequence", 0)
 	f["applier.primary.from.resend"] = r.apCallArgText("Primary.resendEntries", "p.getWALEntriesFromSequence", 0)
 	f["applier.primary.from.poll"] = r.apCallArgText("Primary.sendUpdatedEntries", "p.getWALEntriesFromSequence", 0) + " where " +
@@ -293,14 +299,80 @@ func (p *pkg) apConstAssign(fn, name string) []string {
 	return out
 }
 
+// apLocalConst: value of the constant `name` declared inside fn
+func (p *pkg) apLocalConst(fn, name string) []string {
+	fd := p.findFunc(fn)
+	if fd == nil {
+		fail("applier: function %s.%s not found", p.name, fn)
+		return nil
+	}
+	var out []string
+	ast.Inspect(fd.Body, func(n ast.Node) bool {
+		vs, ok := n.(*ast.ValueSpec)
+		if !ok {
+			return true
+		}
+		for i, id := range vs.Names {
+			if id.Name == name && i < len(vs.Values) {
+				if v, err := p.eval(vs.Values[i], 0); err == nil {
+					out = append(out, v.ExactString())
+				} else {
+					out = append(out, "?"+exprString(vs.Values[i]))
+				}
+			}
+		}
+		return true
+	})
+	return out
+}
+
+// apRangeOver: "k, v := range X" header of the range loop of fn whose body assigns to `lhs`
+func (p *pkg) apRangeOver(fn, lhs string) string {
+	fd := p.findFunc(fn)
+	if fd == nil {
+		fail("applier: function %s.%s not found", p.name, fn)
+		return "?"
+	}
+	var out []string
+	ast.Inspect(fd.Body, func(n ast.Node) bool {
+		rs, ok := n.(*ast.RangeStmt)
+		if !ok {
+			return true
+		}
+		hit := false
+		ast.Inspect(rs.Body, func(m ast.Node) bool {
+			if as, ok := m.(*ast.AssignStmt); ok {
+				for _, l := range as.Lhs {
+					if exprString(l) == lhs {
+						hit = true
+					}
+				}
+			}
+			return true
+		})
+		if hit {
+			k, v := "_", "_"
+			if rs.Key != nil {
+				k = exprString(rs.Key)
+			}
+			if rs.Value != nil {
+				v = exprString(rs.Value)
+			}
+			out = append(out, k+", "+v+" := range "+exprString(rs.X))
+		}
+		return true
+	})
+	return strings.Join(out, " | ")
+}
+
 func genApplierLean(dir string) {
 	c, f := genConst, genFact
 	var sb strings.Builder
 	sb.WriteString("-- GENERATED by kvfacts from /repo's working tree on every run. Do not edit.\n")
 	sb.WriteString("import Kevo.Model.Applier\nnamespace Kevo.Gen\n\n")
-	fmt.Fprintf(&sb, "def applierParams : Kevo.Applier.Params :=\n  { opPut := %s, opDelete := %s, opMerge := %s, maxKey := %s, maxVal := %s, pollLimit := %s }\n",
+	fmt.Fprintf(&sb, "def applierParams : Kevo.Applier.Params :=\n  { opPut := %s, opDelete := %s, opMerge := %s, maxKey := %s, maxVal := %s, pollLimit := %s, pollBytes := %s }\n",
 		c("wal.OpTypePut"), c("wal.OpTypeDelete"), c("wal.OpTypeMerge"),
-		f("applier.Deserialize.maxKey"), f("applier.Deserialize.maxVal"), f("applier.primary.limit"))
+		f("applier.Deserialize.maxKey"), f("applier.Deserialize.maxVal"), f("applier.primary.limit"), f("applier.primary.bytes"))
 	sb.WriteString("theorem applierParams_wf : applierParams.WF := by decide\n")
 	sb.WriteString("\nend Kevo.Gen\n")
 	writeIfChanged(filepath.Join(dir, "Applier.lean"), sb.String())
